@@ -126,5 +126,146 @@ theorem empty_converse (fuel : Nat) (env : Env) (s : Nat) (ls : LState)
     sexec [Gen.Src.«_cds_lfs_empty», Gen.Src.«___cds_lfs_empty_head»]
     simp [absEv, lrun, lstep, hpc]
 
+-- ----------------------------------------------------------------------------------------------------------
+-- _cds_lfs_push (CAS retry loop): every call path of the local automaton is a prefix of a source trace
+-- ----------------------------------------------------------------------------------------------------------
+/-- a path of the local automaton that stays within one call: no label is taken from `idle` -/
+def Within : LState → List LLabel → Prop
+  | _, [] => True
+  | ls, l :: rest => ls.pc ≠ .idle ∧ ∃ m, lstep ls l = some m ∧ Within m rest
+
+/-- the label sequences of one call of push with current guess `h` -/
+inductive PushPath (n : Nat) : Nat → List LLabel → Prop
+  | nil (h) : PushPath n h []
+  | st (h) : PushPath n h [.pushSt n h]
+  | ok (h) : PushPath n h [.pushSt n h, .pushCas n h h]
+  | retry (h cur rest) : cur ≠ h → PushPath n cur rest → PushPath n h (.pushSt n h :: .pushCas n h cur :: rest)
+
+theorem pushPath_of_within (n : Nat) : ∀ (k : Nat) (labels : List LLabel) (h : Nat) (r : Lfs.Ret),
+    labels.length ≤ k → Within ⟨.pushSt n h, r⟩ labels → PushPath n h labels := by
+  intro k
+  induction k with
+  | zero =>
+    intro labels h r hl _
+    cases labels with
+    | nil => exact .nil h
+    | cons _ _ => simp at hl
+  | succ k ih =>
+    intro labels h r hl hw
+    match labels, hl, hw with
+    | [], _, _ => exact .nil h
+    | l :: rest, hl, hw =>
+      obtain ⟨-, m, hm, hw1⟩ := hw
+      cases l <;> simp only [lstep, reduceCtorEq, ite_false] at hm <;> try (simp at hm; done)
+      rename_i n' h'
+      by_cases he : Lfs.Pc.pushSt n h = Lfs.Pc.pushSt n' h'
+      · injection he with e1 e2; subst e1; subst e2
+        simp only [if_true, Option.some.injEq] at hm; subst hm
+        match rest, hl, hw1 with
+        | [], _, _ => exact .st h
+        | l2 :: rest2, hl, hw1 =>
+          obtain ⟨-, m2, hm2, hw2⟩ := hw1
+          cases l2 <;> simp only [lstep, reduceCtorEq, ite_false] at hm2 <;> try (simp at hm2; done)
+          rename_i n2 h2 cur
+          by_cases he2 : Lfs.Pc.pushCas n h = Lfs.Pc.pushCas n2 h2
+          · injection he2 with e1 e2; subst e1; subst e2
+            simp only [if_true] at hm2
+            by_cases hc : cur = h
+            · subst hc
+              simp only [if_true, Option.some.injEq] at hm2; subst hm2
+              cases rest2 with
+              | nil => exact .ok cur
+              | cons x xs => exact absurd rfl hw2.1
+            · simp only [hc, if_false, Option.some.injEq] at hm2; subst hm2
+              refine .retry h cur rest2 hc (ih rest2 cur r ?_ hw2)
+              simp at hl; omega
+          · simp [he2] at hm2
+      · simp [he] at hm
+
+/-- what the loop needs of the environment: the current guess `h` in `head` -/
+def PushEnv (s n : Nat) (cfg : Int) (h : Nat) (e : Env) : Prop :=
+  e.vars "s" = some (.ptr (.obj s)) ∧ e.vars "node" = some (.ptr (.obj n)) ∧
+  e.vars "new_head" = some (.ptr (.obj n)) ∧ e.priv (.glob "CONFIG_RCU_EMIT_LEGACY_MB") = some (.int cfg) ∧
+  e.vars "head" = some (enc h)
+
+theorem push_body_exact (fuel s n : Nat) (cfg : Int) (hnode : n ≠ 0)
+    (body : Stmt) (hb : firstLoop Gen.Src.«_cds_lfs_push» = some body)
+    (e : Env) (h : Nat) (hE : PushEnv s n cfg h e) :
+    (∃ o, exec fuel body e [] = .ok o ∧ o.ctl = .blocked) ∧
+    (∀ rest, ∃ o, exec fuel body e (enc h :: rest) = .ok o ∧ o.ctl = .brk ∧
+      o.events.flatMap (absEv .push s) = [.pushSt n h, .pushCas n h h]) ∧
+    (∀ cur rest, cur ≠ h → ∃ o, exec fuel body e (enc cur :: rest) = .ok o ∧ o.ctl = .normal ∧ o.inp = rest ∧
+      o.events.flatMap (absEv .push s) = [.pushSt n h, .pushCas n h cur] ∧ PushEnv s n cfg cur o.env) := by
+  simp only [Gen.Src.«_cds_lfs_push», block, firstLoop, Option.some.injEq] at hb
+  subst hb
+  obtain ⟨h1, h2, h3, h4, h6⟩ := hE
+  have hdn : dec (.ptr (.obj n)) = some n := by simp [dec, hnode]
+  refine ⟨?_, ?_, ?_⟩
+  · by_cases hc : cfg = 0 <;> sexec
+  · intro rest
+    by_cases hc : cfg = 0 <;> sexec <;> simp [absEv, headLoc, hdn, hnode]
+  · intro cur rest hne
+    have hne' : ¬ h = cur := fun e => hne e.symm
+    by_cases hc : cfg = 0 <;> sexec <;> simp [absEv, headLoc, hdn, hnode, PushEnv, h1, h2, h3, h4, hc]
+
+theorem push_loop_converse (fuel s n : Nat) (cfg : Int) (hnode : n ≠ 0)
+    (body : Stmt) (hb : firstLoop Gen.Src.«_cds_lfs_push» = some body) :
+    ∀ (h : Nat) (labels : List LLabel), PushPath n h labels →
+      ∃ inp, (∀ v ∈ inp, (dec v).isSome) ∧ ∀ k e acc, labels.length ≤ 2 * k → PushEnv s n cfg h e →
+        ∃ out, iterate (exec fuel body) k e inp acc = .ok out ∧ ∃ evs, out.events = acc ++ evs ∧
+          labels <+: evs.flatMap (absEv .push s) := by
+  intro h labels hp
+  induction hp with
+  | nil h =>
+    refine ⟨[], by simp, ?_⟩
+    intro k e acc _ hE
+    cases k with
+    | zero => exact ⟨_, rfl, [], by simp, List.nil_prefix⟩
+    | succ k =>
+      obtain ⟨⟨o, ho, hctl⟩, -, -⟩ := push_body_exact fuel s n cfg hnode body hb e h hE
+      rcases o with ⟨oev, oenv, oinp, octl⟩
+      simp only at hctl; subst hctl
+      exact ⟨⟨acc ++ oev, oenv, oinp, .blocked⟩, by simp only [iterate, ho, bind, Except.bind], oev, rfl, List.nil_prefix⟩
+  | st h =>
+    refine ⟨[enc h], by simp, ?_⟩
+    intro k e acc hk hE
+    cases k with
+    | zero => simp at hk
+    | succ k =>
+      obtain ⟨-, hok, -⟩ := push_body_exact fuel s n cfg hnode body hb e h hE
+      obtain ⟨o, ho, hctl, hev⟩ := hok []
+      rcases o with ⟨oev, oenv, oinp, octl⟩
+      simp only at hctl hev; subst hctl
+      exact ⟨⟨acc ++ oev, oenv, oinp, .normal⟩, by simp only [iterate, ho, bind, Except.bind], oev, rfl,
+        by rw [hev]; exact ⟨[_], rfl⟩⟩
+  | ok h =>
+    refine ⟨[enc h], by simp, ?_⟩
+    intro k e acc hk hE
+    cases k with
+    | zero => simp at hk
+    | succ k =>
+      obtain ⟨-, hok, -⟩ := push_body_exact fuel s n cfg hnode body hb e h hE
+      obtain ⟨o, ho, hctl, hev⟩ := hok []
+      rcases o with ⟨oev, oenv, oinp, octl⟩
+      simp only at hctl hev; subst hctl
+      exact ⟨⟨acc ++ oev, oenv, oinp, .normal⟩, by simp only [iterate, ho, bind, Except.bind], oev, rfl,
+        by rw [hev]; exact List.prefix_refl _⟩
+  | retry h cur rest hne _ ih =>
+    obtain ⟨inp', hwt, hloop⟩ := ih
+    refine ⟨enc cur :: inp', by simpa using hwt, ?_⟩
+    intro k e acc hk hE
+    cases k with
+    | zero => simp at hk
+    | succ k =>
+      obtain ⟨-, -, hfail⟩ := push_body_exact fuel s n cfg hnode body hb e h hE
+      obtain ⟨o, ho, hctl, hinp, hev, hE'⟩ := hfail cur inp' hne
+      rcases o with ⟨oev, oenv, oinp, octl⟩
+      simp only at hctl hinp hev hE'; subst hctl; subst hinp
+      obtain ⟨out, hout, evs, hevs, hpre⟩ := hloop k oenv (acc ++ oev) (by simp at hk; omega) hE'
+      refine ⟨out, by simp only [iterate, ho, bind, Except.bind]; exact hout, oev ++ evs, by simp [hevs], ?_⟩
+      rw [List.flatMap_append, hev]
+      obtain ⟨tl, htl⟩ := hpre
+      exact ⟨tl, by simp [← htl]⟩
+
 end LfsR
 end UrcuVerif.Src
